@@ -213,26 +213,18 @@ class Session:
         return out
 
     def _pair_setup(self, body):
-        """Pair-setup M1..M6 on this connection (setup code acc.setup_code, fresh SRP salt/secret per attempt)."""
-        tlv = lambda items: http_response(200, tlv8.encode(items), "application/pairing+tlv8")  # noqa: E731
-        try:
-            req = dict(tlv8.decode(body))
-        except tlv8.Malformed:
-            return tlv([(hap.T_STATE, b"\x02"), (hap.T_ERROR, b"\x01")])
-        st = req.get(hap.T_STATE)
-        if st == b"\x01":
-            n = len(getattr(self.acc, "setups", []))
-            self.setup = hap.SetupAccessory(self.acc.ident, getattr(self.acc, "setup_code", "111-22-333"), C.det_bytes(self.acc.seed, f"salt|{n}", 16), int.from_bytes(C.det_bytes(self.acc.seed, f"srp-b|{n}", 32), "big"))
-            self.acc.__dict__.setdefault("setups", []).append(self.setup)
-            return tlv(self.setup.m2())
-        if st == b"\x03" and getattr(self, "setup", None):
-            return tlv(self.setup.handle_m3(req))
-        if st == b"\x05" and getattr(self, "setup", None):
-            items = self.setup.handle_m5(req)
-            if self.setup.m5_ok:
-                self.acc.controllers[self.setup.controller[0]] = self.setup.controller[1]
-            return tlv(items)
-        return tlv([(hap.T_STATE, b"\x02"), (hap.T_ERROR, b"\x01")])
+        """Pair-setup M1..M6 on this connection (setup code acc.setup_code, fresh SRP salt/secret per attempt; the exchange lives and dies with
+        the connection, numbering / controllers / log are the accessory's)."""
+        svc = getattr(self, "setup_svc", None)
+        if svc is None:
+            acc = self.acc
+            svc = self.setup_svc = hap.SetupService(acc.ident, getattr(acc, "setup_code", "111-22-333"), acc.seed)
+            svc.setups = acc.__dict__.setdefault("setups", [])
+            svc.log = acc.__dict__.setdefault("setup_log", [])
+            svc.controllers = acc.controllers
+        items = svc.handle(body)
+        self.setup = svc.cur
+        return http_response(200, tlv8.encode(items), "application/pairing+tlv8")
 
     def _pair_verify(self, body):
         tlv = lambda items: http_response(200, tlv8.encode(items), "application/pairing+tlv8")  # noqa: E731
